@@ -33,7 +33,8 @@ CONSTANTS FLAVOUR,       \* "base" | "enumerable" | "consecutive"
           DTs,           \* ledgers advanced before a call
           MinTempTtl, MaxTtl, Now0, Depth,
           BUG,           \* "none" | "no_prev_marker" | "swap_index" | "keep_approval" (vacuity guard)
-          Emit
+          Emit,          \* TRUE: print REPLAY lines
+          EmitMod        \* 1: one line per generated transition; k: a deterministic 1/k share of them
 
 VARIABLES s, now, g, viol, hist
 
@@ -329,7 +330,12 @@ Spec == Init /\ [][Next]_vars
 
 Bound == TRUE
 
-EmitReplay == Emit => PrintT(<<"REPLAY", ToJson(hist')>>)
+\* deterministic thinning of the emitted behaviours (deep configurations print millions otherwise)
+RECURSIVE Mix(_, _)
+Mix(h, i) == IF i > Len(h) THEN 0
+             ELSE (i * (h[i].id + h[i].n + h[i].until + h[i].dt + Cardinality(h[i].auth)
+                        + (IF h[i].exp = "ok" THEN 1 ELSE 0)) + 3 * Mix(h, i + 1)) % 1009
+EmitReplay == (Emit /\ (EmitMod = 1 \/ Mix(hist', 1) % EmitMod = 0)) => PrintT(<<"REPLAY", ToJson(hist')>>)
 
 (* what TLC checks -----------------------------------------------------------------------*)
 NoViolation == viol = {}
